@@ -103,7 +103,8 @@ macro_rules! impl_timestamp_96 {
           Err(e) => {
             let dur = e.duration();
             let complement_nanos = dur.subsec_nanos();
-            let ceil_secs = -(dur.as_secs() as i64);
+            // 2^63 seconds before the epoch is still a valid SystemTime
+            let ceil_secs = (dur.as_secs() as i64).wrapping_neg();
             if complement_nanos == 0 {
               (ceil_secs, 0)
             } else {
@@ -128,9 +129,9 @@ macro_rules! impl_timestamp_96 {
           UNIX_EPOCH + dur
         } else {
           let dur = if subsec_nanos == 0 {
-            Duration::new((-seconds) as u64, 0)
+            Duration::new(seconds.unsigned_abs(), 0)
           } else {
-            Duration::new((-seconds - 1) as u64, BILLION_U32 - subsec_nanos)
+            Duration::new((seconds + 1).unsigned_abs(), BILLION_U32 - subsec_nanos)
           };
           UNIX_EPOCH - dur
         };
